@@ -333,6 +333,10 @@ example : elementwise sub' [some 9, none] (.scalar 4) = .ok [some 5, none] := by
 example : relementwise sub' [some 3, none] (.scalar 10) = .ok [some 7, none] := by decide
 example : relementwise sub' [some 3, some 4] (.seq [some 10, some 20]) = .ok [some 7, some 16] := by decide
 example : radd sub' [some 3, some 4] (.seq [some 10, some 20]) = .ok [some 7, some 16] := by decide
+-- reflected `*` with a multiplication that does NOT commute (`a * b := 10 * a + b`): `other * element`, the written order
+example : binary (fun _ a b => .ok (10 * a + b)) .mul true [some 3, none] (.scalar 7) = .ok [some 73, none] := by decide
+example : binary (fun _ a b => .ok (10 * a + b)) .mul false [some 3, none] (.scalar 7) = .ok [some 37, none] := by decide
+example : binary (fun _ a b => .ok (10 * a + b)) .mul true [some 3, some 4] (.seq [some 7, some 8]) = .ok [some 73, some 84] := by decide
 -- lengths that differ raise, also for a length-1 operand (no broadcasting) and for the empty vector
 example : elementwise sub' [some 9, some 8] (.seq [some 1]) = .error .value := by decide
 example : elementwise sub' [] (.vec [some 1] none) = .error .value := by decide
